@@ -173,7 +173,7 @@ def _tests_obj(case):
         if ft == 'ts' or ft.startswith('float'):
             return t / 4
         if ft == 'bool':
-            return bool(t)
+            return bool(t) if t in (0, 1) else int(t)
         return int(t)
     l = [conv(t) for t in tests]
     if kind == 'set':
@@ -372,6 +372,9 @@ def features(case, model):
         if any(hit): f.append('row-hit')
         if not all(hit) and rows: f.append('row-miss')
         if len(set(tk)) >= 256: f.append('tests>=256-distinct')
+        rg = {'int8': (-128, 127), 'cat': (-128, 127), 'uint16': (0, 65535), 'int32': (-2 ** 31, 2 ** 31 - 1),
+              'bool': (0, 1)}.get(ft)
+        if rg and any(not (rg[0] <= t <= rg[1]) for t in tk): f.append('test-value-outside-column-dtype')
         if len(set(tk)) >= max(_near_sort_threshold(len(rows)), 1):
             f.append('tests>=numpy-sort-threshold')     # np.isin leaves its per-element loop (non-object dtypes)
             if any((not h) and rows.count(r) > 1 for r, h in zip(rows, hit)): f.append('large-tests+duplicated-absent-row')
@@ -505,6 +508,19 @@ def _padding(ft, m, wide, rng=None):
     return [100 + i for i in range(m)] if not wide else [100000 + 7919 * 1000 * i for i in range(m)]
 
 
+def _aliases(ft):
+    """test values just outside the column dtype that a cast to that dtype would fold onto members of _plain_pool(ft)"""
+    if ft in ('int8', 'cat'):
+        return [256, 128, -129, 259, -253, 383]
+    if ft == 'uint16':
+        return [65536, -1, 65536 + 256, 65539, -65533]
+    if ft == 'int32':
+        return [2 ** 32, 2 ** 31, 2 ** 32 - 7, 2 ** 32 + 3, -2 ** 31 - 1]
+    if ft == 'bool':
+        return [2, -1, 256]
+    return []
+
+
 def _gen_regions(tier, rng):
     big = tier == 'thorough'
     boost = 3 if hot.changed() else 1
@@ -515,7 +531,7 @@ def _gen_regions(tier, rng):
     #      'n' (twice for the first edges), its same-length neighbour ending in 'm', short strings; each distinct value is
     #      looked up alone, then each absent same-length value, then mixtures.
     for style in range(4):
-        ed = edges if (big or style < 2) else edges[:6]
+        ed = edges if style < 2 else (edges[::2] if big else edges[:6])
         col = [_cps('a'), []]
         for j, L in enumerate(ed):
             col.append(_long(L, style, 'n'))
@@ -546,7 +562,7 @@ def _gen_regions(tier, rng):
                    'tests': [_long(Lt, style, 'n') for Lt in ed if Lt != Lr], 'tkind': 'list', 'via': 'method'}
     # ---- (a) long indexed strings: unique
     for style in range(4):
-        ed = edges if (big or style < 2) else edges[:6]
+        ed = edges if style < 2 else (edges[::2] if big else edges[:6])
         for j, L in enumerate(ed):
             L2 = ed[(j + 1) % len(ed)]
             col = [_long(L, style, 'n'), _cps('a'), _long(L, style, 'm'), _long(L, style, 'n'), _long(L2, style, 'n'),
@@ -647,8 +663,10 @@ def _gen_regions(tier, rng):
                         if ft == 'bool':
                             pad = list(sub) * 12
                         kinds = KINDS4[:3] if (n <= 2 and level == 'mem') else [KINDS4[k % 3]]
+                        al = _aliases(ft)
                         for kind in kinds:
-                            t = pad + list(sub) + ([None] if k % 11 == 0 else []) + (pad[:2] if k % 5 == 0 else [])
+                            t = pad + list(sub) + ([None] if k % 11 == 0 else []) + (pad[:2] if k % 5 == 0 else []) \
+                                + (al[k % 2::2] if (al and k % 3 == 0) else [])
                             rng.shuffle(t)
                             yield dict({'op': 'isin', 'ft': ft, 'level': level, 'col': list(col), 'tests': t, 'tkind': kind,
                                         'via': 'module' if k % 4 == 0 else 'method'}, **ex)
@@ -693,6 +711,8 @@ def _gen_regions(tier, rng):
             [rng.choice(pool) for _ in range(m)]
         if rng.random() < 0.15:
             t.append(None)
+        if rng.random() < 0.25 and _aliases(ft):
+            t += rng.sample(_aliases(ft), 2)
         if rng.random() < 0.3 and kind != 'set':
             t += t[:3]
         rng.shuffle(t)
